@@ -66,4 +66,10 @@ CHECKS = {
     "C14": dict(engine=_C, technique="runtime monitoring: round-trip oracle dcop_yaml -> load_dcop / load_dcop_from_file (str, list, split files) against the generator's description",
                 text="Held on the executions observed: loaded DCOPs have the same domains (values and types), variables, initial values (incl. 0), every extensional and intentional constraint equal on every assignment, and every agent the same capacity, route() for all pairs incl. self and hosting_cost() for all computations incl. an unknown one.",
                 note="Restricted to what the format expresses: one global default route, symmetric routes, no variable cost functions, space-free string values."),
+    "C16": dict(engine=_C, technique="runtime monitoring: structural oracle (from the generator's description) on the three graph builders, replicated under 3 PYTHONHASHSEED worker processes",
+                text="Held on the executions observed: hyper-graph nodes/constraints/neighbours/links, factor-graph bipartite structure (nodes, links, neighbours, constraints_names) and the ordered graph's next/previous chain in plain lexical order all match the DCOP description, incl. isolated variables, duplicate scopes and names whose natural order differs from string order.",
+                note="<= 8 variables; lexical == plain string order."),
+    "C17": dict(engine=_C, technique="runtime monitoring: DFS-forest validity oracle (harness graph algorithms) on pseudo-trees built for generated constraint graphs up to thousands of variables",
+                text="Held on the executions observed: one node per variable, mutually consistent parent/children and pseudo links, acyclic parents with one root per component, every constraint-sharing pair ancestor/descendant and directly linked by a tree or back edge, pseudo links only along ancestor lines, node.constraints == constraints on its variable, no exception up to 1500 (quick) / 4000 (thorough) variables.",
+                note="Only structure matters (zero-valued function relations); chains, stars, grids, caterpillars for the large sizes."),
 }
